@@ -1,5 +1,5 @@
 (* Proofs for C29, part 1: IntervalTrap and Limiter. *)
-From Coq Require Import List NArith Bool Lia.
+From Coq Require Import List NArith Bool Lia FinFun.
 From K.Model Require Import C29.
 Import ListNotations.
 Local Open Scope N_scope.
@@ -346,7 +346,7 @@ Proof.
     + destruct Hfx as [-> | HL]; [ exact F | eapply HL; eauto ].
     + now apply negb_false_iff in X.
   - destruct (l_thr s c) eqn:E; try exact I. now apply lend_inv.
-  - destruct (l_thr s c) eqn:E; try exact I. now apply lbcast_inv.
+  - destruct (l_thr s c) eqn:E; try exact I. eapply lbcast_inv; eauto.
   - destruct (l_thr s c) eqn:E; try exact I. apply set_thr_inv; auto; congruence.
 Qed.
 
@@ -452,3 +452,102 @@ Theorem limiter_gc_race_refuted :
 Proof.
   exists race_iv, race_sched, 0, 1, 1, 0, 1. vm_compute. repeat split; congruence.
 Qed.
+
+(* patched code on the same schedule: thread 0 finds its task deleted, starts over, and ends up
+   holding the task thread 1 is running *)
+Lemma limiter_race_fixed :
+  let s := lrun true race_iv linit race_sched in
+  l_thr s 0 = LHeld 1 1 /\ l_thr s 1 = LRunning 1 1.
+Proof. vm_compute. split; reflexivity. Qed.
+
+(* while an execution of k is in flight, a caller that reaches its task lock does not run k:
+   it waits on the running task, or (its task was collected) starts over *)
+Theorem limiter_pending_waits : forall iv ls c c' k tid t',
+  let s := lrun true iv linit ls in
+  l_thr s c' = LRunning k t' -> l_thr s c = LHeld k tid ->
+  let s' := lstep true iv s (LDecide c) in
+  (l_thr s' c = LWait k t' \/ l_thr s' c = LStart k) /\
+  (forall x, x <> c -> l_thr s' x = l_thr s x) /\
+  (forall t, t_run (l_heap s' t) = t_run (l_heap s t)).
+Proof.
+  intros iv ls c c' k tid t' s Hr Hh. pose proof (lrun_inv iv ls) as I. fold s in I.
+  destruct (j_thr_run s I _ _ _ Hr) as (R & K). destruct (j_run s I _ R) as (N1 & D1 & X1).
+  pose proof (j_live s I _ N1 D1) as M1. rewrite K in M1.
+  destruct (j_held s I _ _ _ Hh) as (N2 & K2).
+  simpl. rewrite Hh. simpl. destruct (t_del (l_heap s tid)) eqn:D.
+  - simpl. rewrite upd_same. repeat split; auto. intros x Hx. now rewrite upd_other.
+  - pose proof (j_live s I _ N2 D) as M2. rewrite K2 in M2. assert (tid = t') by congruence. subst tid.
+    rewrite X1, R. simpl. rewrite upd_same. repeat split; auto. intros x Hx. now rewrite upd_other.
+Qed.
+
+(* a running task is never collected: it stays the mapped task of its key *)
+Theorem limiter_running_stays_mapped : forall iv ls c k tid,
+  let s := lrun true iv linit ls in
+  l_thr s c = LRunning k tid -> l_map s k = Some tid.
+Proof.
+  intros iv ls c k tid s H. pose proof (lrun_inv iv ls) as I. fold s in I.
+  destruct (j_thr_run s I _ _ _ H) as (R & K). destruct (j_run s I _ R) as (N1 & D1 & _).
+  rewrite <- K. now apply (j_live s I).
+Qed.
+
+(* ---- the oracle on driver-level traces ---- *)
+Lemma nodupb_NoDup : forall l, NoDup l -> nodupb l = true.
+Proof.
+  induction 1 as [| x l Hx Hl IH]; simpl; auto. rewrite IH, andb_true_r.
+  apply negb_true_iff. destruct (existsb (N.eqb x) l) eqn:E; auto.
+  apply existsb_exists in E as (y & Hy & Hxy). apply N.eqb_eq in Hxy. subst. contradiction.
+Qed.
+
+Lemma in_keys_run_l : forall (f : N -> lstatus) cs k,
+  In k (keys_run_l (map f cs)) -> exists c, In c cs /\ f c = SRun k.
+Proof.
+  induction cs as [| c cs IH]; simpl; intros k H; [ contradiction | ].
+  destruct (f c) eqn:E; try (destruct (IH _ H) as (c' & H1 & H2); exists c'; auto; fail).
+  destruct H as [<- | H]; [ exists c; auto | destruct (IH _ H) as (c' & H1 & H2); exists c'; auto ].
+Qed.
+
+Lemma lstatus_run : forall p k, lstatus_of p = SRun k -> exists t, p = LRunning k t.
+Proof. intros p k. destruct p; simpl; intro H; inversion H; subst; eauto. Qed.
+
+Lemma snapshot_single_flight : forall s cs, linv s -> NoDup cs ->
+  NoDup (keys_run_l (map (fun c => lstatus_of (l_thr s c)) cs)).
+Proof.
+  intros s cs I. induction 1 as [| c cs Hc Hn IH]; simpl; [ constructor | ].
+  destruct (lstatus_of (l_thr s c)) eqn:E; auto. constructor; auto.
+  intro Hin. apply in_keys_run_l in Hin as (c' & Hc' & E').
+  apply lstatus_run in E as (t & E). apply lstatus_run in E' as (t' & E').
+  assert (c = c') by (eapply linv_single_flight; eauto). subst. contradiction.
+Qed.
+
+Lemma nthreads_NoDup : forall n, NoDup (nthreads n).
+Proof.
+  intro n. unfold nthreads. apply Injective_map_NoDup; [ | apply seq_NoDup ].
+  intros a b H. now apply Nnat.Nat2N.inj.
+Qed.
+
+Lemma lsnap_nthreads : forall n s, lsnap n s = map (fun c => lstatus_of (l_thr s c)) (nthreads n).
+Proof. intros. unfold lsnap, nthreads. now rewrite map_map. Qed.
+
+Lemma lrun_from_inv : forall iv ls s, linv s -> linv (lrun true iv s ls).
+Proof.
+  intros. unfold lrun. apply fold_left_inv with (P := linv); auto.
+  intros s0 l I. apply lstep_inv; auto.
+Qed.
+
+Lemma lim_check_from : forall iv n ms s, linv s -> lim_check (lmrun true iv n s ms) = true.
+Proof.
+  intros iv n ms. induction ms as [| m r IH]; intros s I; simpl; auto.
+  pose proof (lrun_from_inv iv (lexpand n m) s I) as I'.
+  unfold lim_check in *. simpl. rewrite IH by assumption. rewrite andb_true_r.
+  apply nodupb_NoDup. rewrite lsnap_nthreads. apply snapshot_single_flight; auto.
+  apply nthreads_NoDup.
+Qed.
+
+(* the oracle holds on every driver-level trace of the model of the patched code *)
+Theorem lim_check_sound : forall iv n ms, lim_check (lmrun true iv n linit ms) = true.
+Proof. intros. apply lim_check_from. apply linit_inv. Qed.
+
+(* ... and fails on the trace of the code as found for the race schedule *)
+Lemma lim_check_race_refuted :
+  lim_check (lmrun false race_iv 2 linit [MBegin 0 1; MTick 60000000001; MBegin 1 1; MEnter 1; MEnter 0]) = false.
+Proof. vm_compute. reflexivity. Qed.
